@@ -61,6 +61,9 @@ func TestCheck(t *testing.T) {
 	}
 	// an empty directory in the file service (a first upload that failed at once) for a database the primary does not have
 	jobs = append(jobs, hist.Job{Name: "file/stray-directory", Cfg: hist.Config{PageSize: 512, Start: 3, R2Starts: "absent", BackupKind: "file", Alphabet: []string{"tx:t1", "sync", "svc:stray", "restartP", "svc:back"}}, Depth: 3, Budget: 60 * time.Second})
+	// the primary adopts the service's snapshot while a dead application's hot rollback journal lies next to the database;
+	// the recovery of a later role change must find nothing left to roll back into the adopted image
+	jobs = append(jobs, hist.Job{Name: "file/restore-over-hot-journal", Cfg: hist.Config{PageSize: 512, Start: 3, R2Starts: "absent", BackupKind: "file", Alphabet: []string{"hotj", "svc:ahead", "sync", "recover", "tx:t1"}, Prelude: []string{"sync"}}, Depth: 4, Budget: 60 * time.Second})
 	if run.Thorough() {
 		for i := range jobs {
 			jobs[i].Depth += 2
